@@ -97,35 +97,40 @@ std::vector<Sub> vh_subs() {
   {
     Sub s;
     s.name = "idft";  // inverse DFT writing over its own input
-    s.fields = {{"k", 1, 16}, {"mtype", 0, 1}, {"tmp_a", 0, 1}, {"res_size", 0, 5}, {"a_size", 0, 4}, {"cfg", 0, 1}, {"bits", 1, 40}, {"seed", 0, INT64_MAX - 1}};
+    s.fields = {{"k", 1, 16}, {"mtype", 0, 1}, {"tmp_a", 0, 1}, {"res_size", 0, 5}, {"a_size", 0, 4}, {"cfg", 0, 1}, {"bits", 1, 40}, {"seed", 0, INT64_MAX - 1}, {"dpad", 0, 2}};
     s.run = [](const Vals& v, Ctx& ctx) {
       const uint64_t n = 1ull << v[0];
       MODULE_TYPE mt = v[1] ? NTT120 : FFT64;
       const bool tmp_a = v[2];
       uint64_t rs = v[3], as = v[4];
       if (v[0] >= 13) { rs %= 3; as %= 3; }
+      // the aliased DFT vector has ds >= a_size limbs: the extra ones are the exact zero limbs that vec_znx_dft writes as padding (a
+      // value-dependent "this limb is zero" shortcut of the in-place inverse sees its trigger), and one input limb in four is zero
+      const uint64_t ds = as + (uint64_t)v[8];
       unsigned mask = (v[5] && mt == FFT64) ? spq::GENERIC : spq::FULL;  // NTT120 dft exists only with avx2
       MODULE* mod = spq::modules().get(n, mt, mask);
       Rng r((uint64_t)v[7]);
       const size_t dl = spq::dft_limb_bytes(mt, n), bl = spq::big_limb_bytes(mt, n);
-      const size_t len = std::max(rs * bl, as * dl);
+      const size_t len = std::max(rs * bl, ds * dl);
       Arena ar;
       Buf A = ar.alloc(as * n * 8, OVER);
       int64_t* a = A.as<int64_t>();
       // FFT64: keep dft->idft inside the exact regime of C01 (E < 1/2 for a * 1): N*2^bits*2^-46 < 1/2; NTT120 is exact on all of int64
       const unsigned bits = mt == FFT64 ? (unsigned)std::min<int64_t>(v[6], 44 - (int64_t)v[0]) : (unsigned)std::min<int64_t>(v[6] + 22, 62);
       for (uint64_t i = 0; i < as * n; ++i) a[i] = r.sbits(bits);
+      for (uint64_t i = 0; i < as; ++i)
+        if (r.below(4) == 0) memset(a + i * n, 0, n * 8);
       Buf X = ar.alloc(len, OVER, 0, 3, v[7]);  // aliased buffer: holds a_dft, receives res
-      Buf D2 = ar.alloc(as * dl, OVER), R2 = ar.alloc(rs * bl, OVER, 0, 1);
-      vec_znx_dft(mod, (VEC_ZNX_DFT*)X.p, as, a, as, n);
-      if (as * dl) memcpy(D2.p, X.p, as * dl);
+      Buf D2 = ar.alloc(ds * dl, OVER), R2 = ar.alloc(rs * bl, OVER, 0, 1);
+      vec_znx_dft(mod, (VEC_ZNX_DFT*)X.p, ds, a, as, n);
+      if (ds * dl) memcpy(D2.p, X.p, ds * dl);
       Buf T1 = ar.alloc(vec_znx_idft_tmp_bytes(mod), OVER, 0, 1), T2 = ar.alloc(vec_znx_idft_tmp_bytes(mod), OVER, 0, 2);
       if (tmp_a) {
-        vec_znx_idft_tmp_a(mod, (VEC_ZNX_BIG*)X.p, rs, (VEC_ZNX_DFT*)X.p, as);
-        vec_znx_idft_tmp_a(mod, (VEC_ZNX_BIG*)R2.p, rs, (VEC_ZNX_DFT*)D2.p, as);
+        vec_znx_idft_tmp_a(mod, (VEC_ZNX_BIG*)X.p, rs, (VEC_ZNX_DFT*)X.p, ds);
+        vec_znx_idft_tmp_a(mod, (VEC_ZNX_BIG*)R2.p, rs, (VEC_ZNX_DFT*)D2.p, ds);
       } else {
-        vec_znx_idft(mod, (VEC_ZNX_BIG*)X.p, rs, (VEC_ZNX_DFT*)X.p, as, T1.p);
-        vec_znx_idft(mod, (VEC_ZNX_BIG*)R2.p, rs, (VEC_ZNX_DFT*)D2.p, as, T2.p);
+        vec_znx_idft(mod, (VEC_ZNX_BIG*)X.p, rs, (VEC_ZNX_DFT*)X.p, ds, T1.p);
+        vec_znx_idft(mod, (VEC_ZNX_BIG*)R2.p, rs, (VEC_ZNX_DFT*)D2.p, ds, T2.p);
       }
       ctx.notef("vec_znx_idft%s res==a_dft N=%llu %s res_size=%llu a_size=%llu", tmp_a ? "_tmp_a" : "", (unsigned long long)n, mt == FFT64 ? "FFT64" : "NTT120",
                 (unsigned long long)rs, (unsigned long long)as);
@@ -144,7 +149,8 @@ std::vector<Sub> vh_subs() {
       if (ar.check_canaries() >= 0) return ctx.failf("vec_znx_idft in place wrote outside its buffers");
       ctx.nontrivial = rs >= 1 && as >= 1;
       ctx.cls(std::string("op:vec_znx_idft") + (tmp_a ? "_tmp_a" : "") + (mt == FFT64 ? ":FFT64" : ":NTT120"));
-      if (rs != as) ctx.cls("res_size!=aliased_size");
+      if (rs != ds) ctx.cls("res_size!=aliased_size");
+      if (ds > as) ctx.cls("idft:zero-padded dft limbs");
     };
     subs.push_back(s);
   }
